@@ -20,7 +20,9 @@
 #include "../engine/verif.hpp"
 #include "../engine/inst_mutex.hpp"
 
-#if defined(__has_feature)
+#if defined(__SANITIZE_ADDRESS__)          // g++
+#  define VERIF_ASAN 1
+#elif defined(__has_feature)               // clang++
 #  if __has_feature(address_sanitizer)
 #    define VERIF_ASAN 1
 #  endif
